@@ -350,10 +350,11 @@ def run_unit(unit, repo='/repo', tier='quick', seed=0):
                 # verus names impl methods `Type::method` or `impl&%N::method`; compare on the last segment + uniqueness
                 last = fn.split('::')[-1]
                 cands = [o for o in ok_fns if o.split('::')[-1] == last]
-                same = [o for o in cands if o == fn or o.endswith('::' + fn)]
+                # exact (module-qualified) name only: `tetris::DepOrder::push` verifying says nothing about `DepOrder::push`
+                same = [o for o in cands if o == fn]
                 if same or (len(cands) == 1 and len([g for g in failing_fns if g.split('::')[-1] == last]) == 1 and not any(
                         (d.get('level') == 'error' and fn_at((spans_of(d)[1] or spans_of(d)[0] or [{'line_start': 0}])[0]['line_start']) == fn) for d in r2['diags'])):
-                    stable = set(o for o in stable if ('::' + fn + '::') not in o)
+                    stable = stable - set(f['obligation'] for f in real_fails if f['function'] == fn)
         res['failures'] = [f for f in real_fails if f['obligation'] in stable]
         res['unstable'] = [f for f in real_fails if f['obligation'] not in stable]
         if res['failures']:
